@@ -1,4 +1,5 @@
 import CasbinVerif.Driver.Effector
+import CasbinVerif.Driver.Store
 /-
   casbin-model: the line-protocol driver.  Reads one operation per line on stdin and prints, for
   every line, `<model observation> ;; <spec observation> ;; <wf>` where `wf` tells whether the line
@@ -7,20 +8,36 @@ import CasbinVerif.Driver.Effector
 -/
 open Casbin Casbin.Driver
 
-def stepLine (line : String) : String :=
-  let ts := Proto.tokens line
-  match effectorOp ts with
-  | some (m, s, wf) => s!"{m} ;; {s} ;; {if wf then 1 else 0}"
-  | none => "bad-op"
+structure DState where
+  comp : String := ""
+  store : StoreSt := {}
 
-partial def loop (h : IO.FS.Stream) (out : IO.FS.Stream) : IO Unit := do
+def fmt (m s : String) (wf : Bool) : String := s!"{m} ;; {s} ;; {if wf then 1 else 0}"
+
+def stepLine (st : DState) (line : String) : DState × String :=
+  let ts := Proto.tokens line
+  let comp := match ts with
+    | "case" :: c :: _ => c
+    | _ => st.comp
+  let st := { st with comp := comp }
+  match effectorOp ts with
+  | some (m, s, wf) => (st, fmt m s wf)
+  | none =>
+    if comp == "store" then
+      match storeOp st.store ts with
+      | some (s', m, s, wf) => ({ st with store := s' }, fmt m s wf)
+      | none => (st, "bad-op")
+    else (st, "bad-op")
+
+partial def loop (h : IO.FS.Stream) (out : IO.FS.Stream) (st : DState) : IO Unit := do
   let line ← h.getLine
   if line.isEmpty then return ()
-  let l := (line.dropRightWhile (fun c => c == '\n' || c == '\r'))
-  out.putStrLn (stepLine l)
-  loop h out
+  let l := line.trimAsciiEnd.toString
+  let (st', o) := stepLine st l
+  out.putStrLn o
+  loop h out st'
 
 def main : IO Unit := do
   let stdin ← IO.getStdin
   let stdout ← IO.getStdout
-  loop stdin stdout
+  loop stdin stdout {}
